@@ -1,6 +1,7 @@
 package main
 
 import (
+	"os"
 	"bytes"
 	"errors"
 	"fmt"
@@ -161,10 +162,23 @@ func runC02(c *runCtx) {
 			c.emit("c02", resultLine(m), tag, hx(pre))
 		}
 	}
-	m, err := mimetype.DetectFile("/nonexistent/verif/file")
-	if m != nil && err != nil {
-		c.emit("c02", resultLine(m), "err", "-")
+	// file errors under every kind of limit: missing path, a directory
+	for _, lim := range []uint32{3072, 0, 1, 1 << 22} {
+		for _, p := range []string{"/nonexistent/verif/file", "/", os.TempDir()} {
+			mimetype.SetLimit(lim)
+			m, err := mimetype.DetectFile(p)
+			c.stats.note("error-path", []byte(fmt.Sprintf("file:%s:%d", p, lim)), 0, true)
+			if m != nil && err != nil {
+				c.emit("c02", resultLine(m), "err", "-")
+				if m.Parent() != nil || m.String() != "application/octet-stream" {
+					c.propfail("C02", fmt.Sprintf("DetectFile(%s) at limit %d returned an error together with %s (parent %v): must be exactly application/octet-stream", p, lim, m.String(), m.Parent()))
+				}
+			} else if err == nil {
+				c.propfail("C02", fmt.Sprintf("DetectFile(%s) at limit %d returned no error", p, lim))
+			}
+		}
 	}
+	mimetype.SetLimit(3072)
 }
 
 // ---- C15: equality helpers -----------------------------------------------------------------------------
@@ -264,6 +278,35 @@ func runC15(c *runCtx) {
 		l := mimetype.Lookup(bare)
 		if !m.Is(s) || !mimetype.EqualsAny(s, s) || l == nil || !l.Is(s) {
 			c.propfail("C15", fmt.Sprintf("result %q: Is(self)=%v EqualsAny(self,self)=%v Lookup(bare type %q).Is(self)=%v", s, m.Is(s), mimetype.EqualsAny(s, s), bare, l != nil && l.Is(s)))
+		}
+		// a detection result (and every ancestor it reports) answers Is exactly like the registered format it stands
+		// for: true for the type and every alias in any decoration, false for other registered names
+		k := 0
+		for p := m; p != nil; p = p.Parent() {
+			pb, _, _ := mime.ParseMediaType(p.String())
+			for i, n := range nodes {
+				if n.MIME != pb || n.Extension != p.Extension() {
+					continue
+				}
+				for _, a := range append([]string{n.MIME}, n.Aliases...) {
+					k++
+					dec := decorate(c, a, k)
+					if !p.Is(a) || !p.Is(dec) {
+						c.propfail("C15", fmt.Sprintf("detection result %q (registered format #%d %s) does not answer Is(%q) / Is(%q): %v / %v", p.String(), i, n.MIME, a, dec, p.Is(a), p.Is(dec)))
+					}
+				}
+				other := nodes[(i*7+3)%len(nodes)]
+				if other.MIME != n.MIME && p.Is(other.MIME) {
+					own := false
+					for _, a := range n.Aliases {
+						own = own || a == other.MIME
+					}
+					if !own {
+						c.propfail("C15", fmt.Sprintf("detection result %q answers Is(%q), a different registered type", p.String(), other.MIME))
+					}
+				}
+				break
+			}
 		}
 	}
 	_ = bytes.MinRead
